@@ -79,8 +79,17 @@ impl Traced {
             return None;
         }
         let mut out = self.prog.consts.clone();
+        // two constants that coincided at the trace state were merged into one slot; if they differ at this state (a state-dependent f64 value
+        // that happened to equal a genuine constant there, e.g. a tabulated temperature equal to a reference temperature), this program's
+        // constant table cannot represent the state: treat it as a different shape (a program of its own is traced at that state)
+        let mut written: Vec<Option<u64>> = vec![None; out.len()];
         for (i, v) in p.consts.iter().enumerate() {
-            out[self.remap[i] as usize] = *v;
+            let slot = self.remap[i] as usize;
+            match written[slot] {
+                Some(bits) if bits != v.to_bits() => return None,
+                _ => written[slot] = Some(v.to_bits()),
+            }
+            out[slot] = *v;
         }
         Some(out)
     }
